@@ -216,6 +216,9 @@ func styleFeatures(env refEnv, name string, v int, tr *genTrace, extra []string)
 	}
 	for _, st := range tr.Steps {
 		extendsTags(env, st.Name, set)
+		if raw := env.lookup(st.Name); raw != nil && raw.System == "extends" && raw.HasRange && raw.RangeAuto {
+			set["extends-range-auto"] = true
+		}
 		s := st.Style
 		if s.HasRange && !s.RangeAuto {
 			for _, r := range s.Ranges {
